@@ -715,7 +715,7 @@ def run_bounded(ctx: Ctx) -> Report:
             samples=[cases[0], cases[len(cases) // 2], cases[-1]], exhaustive=True,
             extra={"must_raise_cases": len(cases) - valid}))
         # 2 ------------------------------------------------------------------------
-        budget = 4 if not ctx.thorough else 5
+        budget = 4 if not ctx.thorough else 6
         ccases = []
         n_orders = 0
         for name, rec in HRGS.items():
